@@ -167,6 +167,14 @@ def verify(self, eng, inst):
             raised.append(s)
             eng.oblige(f"{Q}.exc.fails_only_if_field_not_inside_payload_or_dependency_missing[{tag}]", s, err, kind="exc", site=fi.lineno,
                        observe=obs2, note=f"raises {out.cls.__name__}: {out.msg}")
+            if not inst.get("_infer"):
+                # ... and with the one class the walk's caller view assumes (fields that read other attributes or the maps may
+                # also fail with the lookup's own error when those are absent - a state the walk never produces, by tables.WF)
+                fc = leaf_failure_class()
+                dependent = typ in ("PRN", "CPR", "CSG") or anam in ("IDF038", "DF396")
+                okc = fc is SomeException or out.cls is fc or (dependent and out.cls in (AttributeError, KeyError, TypeError))
+                eng.oblige(f"{Q}.exc.failure_class_is_the_one_the_walk_assumes[{tag}]", s, z3.BoolVal(okc), kind="exc", site=fi.lineno,
+                           note=f"raises {out.cls.__name__}, walk assumes {fc.__name__}")
             continue
         canary.append(s)
         eng.oblige(f"{Q}.post.no_attribute_from_bits_outside_payload[{tag}]", s, z3.Not(err), site=fi.lineno, observe=obs2)
@@ -279,6 +287,32 @@ def coefficient_count_lemma():
                 bad.append((d, o_, nc, cnt_c, ns, cnt_s))
     out.append(("lemma.igs.coefficient_count_formula_counts_C_and_S_terms[order<=degree]", not bad, {"mismatch": bad[:4]}))
     return out
+
+
+_FAIL = []
+
+
+def leaf_failure_class():
+    """The exception class the real leaf raises when a plain field does not fit the payload, read off the leaf's own symbolic
+    execution on every run (strongest exceptional postcondition; on the pinned tree: ValueError, 'negative shift count').
+    The walk's caller view raises exactly this class, so an `except` clause is judged by what can actually reach it; the leaf's
+    own verification obliges every field to fail with this class.  Falls back to 'some Exception' if the inference is not unique."""
+    if not _FAIL:
+        import builtins
+        classes = set()
+        try:
+            from pyvc.symex import Engine
+            for fld in ("DF002", "DF003", "DF025"):
+                eng = Engine(REGISTRY)
+                verify(REGISTRY[Q], eng, {"field": fld, "depth": 0, "_infer": True})
+                for ob in eng.obligations:
+                    if ".exc.fails_only_if" in ob.name and ob.note and ob.note.startswith("raises "):
+                        classes.add(ob.note.split()[1].rstrip(":"))
+        except Exception:  # noqa  (modified leaf outside the subset, ...): no inference
+            classes = set()
+        cls = getattr(builtins, next(iter(classes)), None) if len(classes) == 1 else None
+        _FAIL.append(cls if isinstance(cls, type) and issubclass(cls, Exception) else SomeException)
+    return _FAIL[0]
 
 
 _c = REGISTRY[Q]
